@@ -266,6 +266,26 @@ for k, t in R13TXT.items():
     lv, eng, tech, text, note = checks[k]
     checks[k] = (lv, eng, tech, text + t, note)
 
+R14TXT = {
+ "C01": " Fourteenth round: every decoded frame is looked at the way a log line does (fmt verbs, Stringer / GoStringer, encoding/json, by value and by pointer) before it is compared.",
+ "C02": " Fourteenth round: a received frame is formatted (fmt, String, json) between decoding and validation.",
+ "C03": " Fourteenth round: the frame is formatted between the encrypting and the decrypting method.",
+ "C04": " Fourteenth round: the join-accept is formatted between SetMIC and encryption and between decryption and validation.",
+ "C05": " Fourteenth round: the receiver formats every frame it decodes (Transfer operation of the exchange histories, command values, many sessions).",
+ "C07": " Fourteenth round: frames are formatted between decoding and DecodeFOpts / DecodeFRMPayload.",
+ "C08": " Fourteenth round: an accepted frame is formatted (fmt.Sprint: String() where there is one) before it is re-encoded.",
+ "C10": " Fourteenth round: formatting (fmt verbs, String, GoString, json; by value and by pointer) is a seventh inspect-only operation; all seven also on frames whose FOpts are still the bytes from the wire.",
+ "C11": " Fourteenth round: the database form is taken the way database/sql takes it - a value of the type asserted to driver.Valuer at run time.",
+ "C14": " Fourteenth round: every planned payload is decoded from its encoding and must come back as it was (the device applies what arrives).",
+ "C15": " Fourteenth round: the LinkADRReqs planned for three device subsets in every explored state go through the MAC encoder and back.",
+ "C16": " Fourteenth round: devices that come back in the many-devices history send lower nonces than before.",
+ "C17": " Fourteenth round: a fourth value variant - present pointer fields pointing at the zero value of their type (the zero time, 0, false).",
+ "C18": " Fourteenth round: a decoded sequence element is compared as the whole library value (nothing beyond CID and payload).",
+}
+for k, t in R14TXT.items():
+    lv, eng, tech, text, note = checks[k]
+    checks[k] = (lv, eng, tech, text + t, note)
+
 def load_extra():
     p = os.path.join(V, "bin", "manifest_table.json")
     if os.path.exists(p):
